@@ -76,6 +76,7 @@ type vrUniverse struct {
 	InitChain []int      `json:"InitChain"`
 	InitFH    int        `json:"InitFH"`
 	Lag       bool       `json:"Lag"`
+	Split     bool       `json:"Split"`
 	Updates   []vrUpdate `json:"Updates"`
 }
 
@@ -366,6 +367,7 @@ type vrChain struct {
 	fh          int
 	lastBacklog int
 	subs        []*vrSub
+	held        blockntfns.BlockNtfn // chain event whose notification the manager has not been handed yet
 	down        bool
 }
 
@@ -841,6 +843,10 @@ func (x *vrRun) envAct(a *vrAct) error {
 	c, w := x.c, x.w
 	var n blockntfns.BlockNtfn
 	c.mu.Lock()
+	if c.held != nil {
+		c.mu.Unlock()
+		return fmt.Errorf("%s while a notification is outstanding", a.Op)
+	}
 	tip := c.chain[len(c.chain)-1]
 	switch a.Op {
 	case "Extend":
@@ -875,11 +881,38 @@ func (x *vrRun) envAct(a *vrAct) error {
 		a.B = tip
 		n = blockntfns.NewBlockDisconnected(*w.hdr[tip], uint32(h), *w.hdr[c.chain[h-1]])
 	}
+	if n != nil && w.u.Split {
+		// the stores have changed, the block manager is still blocked in
+		// its send to the subscription manager (step Emit)
+		c.held, n = n, nil
+	}
 	c.mu.Unlock()
 	if n != nil {
 		if err := c.emit(n); err != nil {
 			return fmt.Errorf("%s: %v\n%s", a.Op, err, vrDump())
 		}
+	}
+	return nil
+}
+
+// emitHeld: the subscription manager takes the outstanding notification.
+func (x *vrRun) emitHeld(a *vrAct) error {
+	c := x.c
+	c.mu.Lock()
+	n := c.held
+	c.held = nil
+	c.mu.Unlock()
+	if n == nil {
+		return errors.New("Emit with no notification outstanding")
+	}
+	hd := n.Header()
+	a.B = x.w.idOf(hd.BlockHash())
+	a.Res = "conn"
+	if _, ok := n.(*blockntfns.Disconnected); ok {
+		a.Res = "disc"
+	}
+	if err := c.emit(n); err != nil {
+		return fmt.Errorf("Emit: %v\n%s", err, vrDump())
 	}
 	return nil
 }
@@ -1146,6 +1179,12 @@ func vrFollow(x *vrRun, p vrPathIn, out *vrPathOut) bool {
 
 		case a.Op == "Extend" || a.Op == "AddFH" || a.Op == "Rollback":
 			if err := x.envAct(&a); err != nil {
+				out.Error = err.Error()
+				return false
+			}
+
+		case a.Op == "Emit":
+			if err := x.emitHeld(&a); err != nil {
 				out.Error = err.Error()
 				return false
 			}
